@@ -11,6 +11,7 @@ REPO = os.environ.get("VERIF_REPO", "/repo")
 VERIF = os.path.dirname(os.path.dirname(os.path.abspath(__file__)))
 OVERLAY = os.path.join(VERIF, "overlay")
 SHIM = os.path.join(VERIF, "shims", "memchr")
+SHIM_HASHBROWN = os.path.join(VERIF, "shims", "hashbrown")
 CACHE = os.path.join(VERIF, ".cache")
 EVIDENCE = os.path.join(VERIF, "evidence")
 REPLAY = os.path.join(VERIF, "replay")
@@ -93,7 +94,7 @@ class Scratch:
     def patch_memchr(self):
         ct = os.path.join(self.src, "Cargo.toml")
         with open(ct, "a") as f:
-            f.write('\n[patch.crates-io]\nmemchr = { path = "%s" }\n' % SHIM)
+            f.write('\n[patch.crates-io]\nmemchr = { path = "%s" }\nhashbrown = { path = "%s" }\n' % (SHIM, SHIM_HASHBROWN))
 
     def parent_module_file(self, rel):
         """For overlay file src/a/b/verif_kani.rs return the file of module a::b."""
